@@ -1104,6 +1104,11 @@ func ruleMust(c *Ctx) {
 				}
 			}
 			caller := fname(fn)
+			if _, known := reviewedMustSites[caller+" -> "+cn]; !known {
+				if _, isW := reviewedPanicFuncs[caller]; !isW {
+					caller = c.ownerName(fn)
+				}
+			}
 			if _, callerIsWrapper := reviewedPanicFuncs[caller]; callerIsWrapper && reviewedPanicFuncs[caller].kind == "wrapper" {
 				continue // wrappers calling wrappers (MustX -> X) are judged at their own call sites
 			}
@@ -1128,6 +1133,9 @@ func ruleMust(c *Ctx) {
 		for _, ci := range callsTo(fn, "note.NewName") {
 			c.site(1)
 			caller := fname(fn)
+			if _, ok := reviewedNameProducers[caller]; !ok {
+				caller = c.ownerName(fn)
+			}
 			key := "producer|note.NewName|" + caller
 			if why, ok := reviewedNameProducers[caller]; ok {
 				c.ok(key, c.pos(ci.Pos()), caller, "reviewed: "+why)
@@ -1138,6 +1146,9 @@ func ruleMust(c *Ctx) {
 		for _, ci := range callsTo(fn, "note.NewAccidental") {
 			c.site(1)
 			caller := fname(fn)
+			if caller != "note.ParseNote" {
+				caller = c.ownerName(fn)
+			}
 			c.check(caller == "note.ParseNote", "producer|note.NewAccidental|"+caller, c.pos(ci.Pos()), caller, "reviewed: argument is the non-empty capture [#b] of noteRegex", "new string -> note.Accidental conversion: NewAccidental returns UnknownAccidental for unknown text and Accidental.Semitone panics on it")
 		}
 	}
@@ -2002,4 +2013,65 @@ func (c *Ctx) cycleFollowsExtends(scc []*ssa.Function) bool {
 		}
 	}
 	return n > 0
+}
+
+
+// ownerName: the name an inventory files a call site under: the function itself, or - for an unexported helper with
+// exactly one static caller in its package (code extracted from that caller) - the caller, transitively.
+func (c *Ctx) ownerName(fn *ssa.Function) string {
+	if c.callersOf == nil {
+		c.callersOf = map[*ssa.Function]map[*ssa.Function]bool{}
+		for _, f := range c.srcFuncs() {
+			root := f
+			for root.Parent() != nil {
+				root = root.Parent()
+			}
+			for _, ci := range callsIn(f) {
+				callee := staticCallee(ci.Common())
+				if callee == nil {
+					continue
+				}
+				callee = unbound(callee)
+				if callee == root {
+					continue
+				}
+				if c.callersOf[callee] == nil {
+					c.callersOf[callee] = map[*ssa.Function]bool{}
+				}
+				c.callersOf[callee][root] = true
+			}
+		}
+	}
+	cur := fn
+	for cur.Parent() != nil {
+		cur = cur.Parent()
+	}
+	for i := 0; i < 4; i++ {
+		if _, aliased := funcAlias[cur]; aliased {
+			break
+		}
+		if cur.Object() == nil || cur.Object().Exported() || len(c.callersOf[cur]) != 1 {
+			break
+		}
+		var only *ssa.Function
+		for k := range c.callersOf[cur] {
+			only = k
+		}
+		if only.Pkg != cur.Pkg {
+			break
+		}
+		cur = only
+	}
+	if cur == fn || fn.Parent() == nil {
+		return fname(cur)
+	}
+	// a closure keeps its own name unless its root was re-filed
+	root := fn
+	for root.Parent() != nil {
+		root = root.Parent()
+	}
+	if cur == root {
+		return fname(fn)
+	}
+	return fname(cur)
 }
